@@ -73,9 +73,17 @@ func (l *Layer) snapshot() *Layer {
 	return l
 }
 
+// condResolver, when set, decides a layer condition that is implied (or refuted) by the current
+// path condition, so that reads through range logs stay small.
+var condResolver func(c *Term) *Term
+
 func inRange(i, off, n *Term) *Term {
 	// off <= i < off+n  (no wrap for the sizes that occur): (i-off) <u n
-	return Ult(Sub(i, off), n)
+	c := Ult(Sub(i, off), n)
+	if condResolver != nil && !c.IsConst() {
+		return condResolver(c)
+	}
+	return c
 }
 
 func (l *Layer) read(i *Term) *Term {
@@ -125,6 +133,9 @@ func (l *Layer) read(i *Term) *Term {
 		}
 	case lStore:
 		c := Eq(i, l.idx)
+		if condResolver != nil && !c.IsConst() {
+			c = condResolver(c)
+		}
 		switch c {
 		case TTrue:
 			return l.val
